@@ -8,6 +8,10 @@ CodeGuarded == {"iss", "sub", "exp", "iat", "active", "client_id", "scope"}
 AllS2SDefects == {"aud", "validity", "nodates", "nononce", "signer", "mixed", "unfulfilled", "foreigndef", "forgedmap",
                   "partial", "vpsig", "vcsig", "revoked", "expired", "stale", "scope", "multiscope", "baddpop"}
 AllAuthDefects == {"scope", "multiscope"}
+OneShape == {[nvp |-> 1, main |-> 1, pos |-> 1]}
+AllShapes == {[nvp |-> n, main |-> m, pos |-> q] : n \in 1..3, m \in 1..3, q \in 1..3} \cap
+             {sh \in [nvp : 1..3, main : 1..3, pos : 1..3] : sh.main <= sh.nvp /\ sh.pos <= sh.nvp}
+AllOkAuds == {"exact", "array_with"} \cup NearAuds
 AllRespDefects == {"state", "tenant", "nononce", "badnonce", "signer", "mixed", "aud", "vpsig", "vcsig", "revoked",
                    "expired", "stale", "foreigndef", "unfulfilled", "forgedmap"}
 AllTokDefects == {"nocode", "code", "client", "verifier", "baddpop"}
